@@ -93,8 +93,19 @@ func (c01) Generate(idx int, r *core.Rand, tier string) core.Script {
 		}
 	}
 	nsig := w.Range(1, 6)
-	if w.Chance(1, 300) { // a long-lived signer
-		nsig = w.Range(40, 120)
+	long := w.Chance(1, 300)
+	if long { // a long-lived signer / verifier: hundreds of signatures under one key, then another key
+		nsig = w.Range(130, 300)
+		if len(s.Keys) == 0 {
+			k2 := genPriv(w)
+			if len(priv) < 32 {
+				k2 = k2[32-len(priv):]
+				if ref.Int(k2).Sign() == 0 {
+					k2[len(k2)-1] = 1
+				}
+			}
+			s.Keys = append(s.Keys, hx(k2))
+		}
 	}
 	for i := 0; i < nsig; i++ {
 		for w.Chance(1, 6) {
@@ -105,6 +116,20 @@ func (c01) Generate(idx int, r *core.Rand, tier string) core.Script {
 		sig := c01Sig{Op: []string{"SignHashed", "SignHashed", "SignZa", "Sign"}[w.Intn(4)]}
 		if len(s.Keys) > 0 {
 			sig.Key = w.Intn(len(s.Keys) + 1)
+		}
+		if long { // one key for a long stretch, the other key only at the very end
+			sig.Key = 0
+			if i >= nsig-3 {
+				sig.Key = 1
+			}
+			if w.Chance(1, 2) {
+				sig.Op = "SignHashed"
+			}
+		}
+		if w.Chance(1, 400) { // a long run of unusable candidates before this signature's nonce
+			for j := w.Range(100, 300); j > 0; j-- {
+				s.Content.Candidates = append(s.Content.Candidates[:len(s.Content.Candidates)-1], hx(highCandidate(w)), s.Content.Candidates[len(s.Content.Candidates)-1])
+			}
 		}
 		d := d
 		if sig.Key > 0 {
